@@ -2,16 +2,19 @@
 (***************************************************************************)
 (* Trace validation for C05.  Events (harness/src/bin/styles.rs, Save      *)
 (* events completed by pydec/styles_view.py):                              *)
-(*   Init                               a new workbook                     *)
-(*   Assign cells rows cols             styles (assigned form) and         *)
+(*   Init n                             n new workbook objects             *)
+(*   Assign w cells rows cols           styles (assigned form) and         *)
 (*                                      dimensions set through the setters *)
-(*   Save   sizes, wellformed           write_writer; table sizes of       *)
+(*   Import w v items                   get_style(..).clone() of a cell of *)
+(*                                      workbook v set on a cell / row /   *)
+(*                                      column of workbook w               *)
+(*   Save w sizes, wellformed           write_writer; table sizes of       *)
 (*                                      styles.xml by the independent view *)
-(*   Reload names                       read_reader of the last file;      *)
-(*                                      names = every font name of the     *)
-(*                                      saved workbook as characters       *)
+(*   Reload w names                     read_reader of the last file of w; *)
+(*                                      names = every font name seen so    *)
+(*                                      far, as characters                 *)
 (* every event carries outcome and obs = what the public getters show      *)
-(* (effective form) of every cell, row and column afterwards.              *)
+(* (effective form) of every cell, row and column of workbook w afterwards.*)
 (* An event is accepted iff obs = ProjBook of the specification's          *)
 (* post-state; for Reload the post-state is Load(SaveBook(..)) of          *)
 (* Styles.tla with the intended parameters, else with the parameters of    *)
@@ -22,8 +25,9 @@ EXTENDS Styles, TraceBase
 CONSTANTS MaxRow, MaxCol
 
 VARIABLES l,
-          snap     \* <<>> or <<[book, ss]>>: the workbook as it was when the last file was written
-tvars == <<book, given, ss, file, sizes, l, snap>>
+          snap     \* per workbook <<>> or <<[book, ss]>>: the workbook as it was when its last file was written
+tvars == <<wbs, l, snap>>
+(* (of a workbook record only book, ss and sizes are used here; sizes holds the *observed* table sizes) *)
 
 Ev == Rec[l]
 
@@ -35,7 +39,7 @@ NoDup(o) == /\ Len(o.cells) = Cardinality({<<o.cells[i].r, o.cells[i].c>> : i \i
 (* after a mismatch the specification follows the observation: every component becomes explicit *)
 UnEff(e) == [font |-> <<[name |-> e.font.name, size |-> e.font.size, bold |-> e.font.bold, italic |-> e.font.italic,
                          underline |-> e.font.underline, strike |-> e.font.strike, color |-> e.font.color, sch |-> "none"]>>,
-             fill |-> <<e.fill>>, border |-> <<e.border>>, align |-> <<e.align>>, numFmt |-> <<e.numFmt>>, prot |-> <<e.prot>>]
+             fill |-> <<e.fill>>, border |-> <<e.border>>, align |-> <<e.align>>, numFmt |-> <<NumOf(e.numFmt)>>, prot |-> <<e.prot>>]
 Resync(o) == [cells |-> {[x EXCEPT !.sty = UnEff(@)] : x \in ToSet(o.cells)},
               rows  |-> {[x EXCEPT !.sty = UnEff(@)] : x \in ToSet(o.rows)},
               cols  |-> {[x EXCEPT !.sty = UnEff(@)] : x \in ToSet(o.cols)}]
@@ -124,61 +128,77 @@ Triggered(S, names) ==
   \cup {id \in {"C05-KF3"} : KFOn(id) /\ TrigKF3(names, S)}
 
 (* ---- steps -------------------------------------------------------------------------------------- *)
-Follow(e) == book' = Resync(e.obs) /\ ss' = NewSS
+RECURSIVE FoldImport(_, _, _)
+FoldImport(B, V, its) ==
+  IF its = <<>> THEN B ELSE FoldImport(ImportB(B, Head(its), StyleAt(V, Head(its).r2, Head(its).c2)), V, Tail(its))
+ImportInContract(e) ==
+  /\ e.v \in DOMAIN wbs
+  /\ \A i \in DOMAIN e.items : /\ e.items[i].k \in {"cell", "row", "col"}
+                                 /\ e.items[i].r \in 1..MaxRow /\ e.items[i].c \in 1..MaxCol
+                                 /\ e.items[i].r2 \in 1..MaxRow /\ e.items[i].c2 \in 1..MaxCol
+
+(* workbook w of the next state *)
+Put(w, B, s, sz) == wbs' = [wbs EXCEPT ![w] = [@ EXCEPT !.book = B, !.ss = s, !.sizes = sz]]
+Follow(w, e, sz) == Put(w, Resync(e.obs), NewSS, sz)
 
 Step(e) ==
   IF e.a = "Fatal"
-  THEN UNCHANGED <<book, ss, sizes, snap>> /\ Mismatch(l, <<"impl", "fatal", e.outcome>>)
+  THEN UNCHANGED <<wbs, snap>> /\ Mismatch(l, <<"impl", "fatal", e.outcome>>)
   ELSE IF e.a = "Init"
-  THEN /\ book' = EmptyBook /\ ss' = NewSS /\ sizes' = <<>> /\ snap' = <<>>
-       /\ IF e.outcome = "ok" /\ ObsBook(e.obs) = ProjBook(EmptyBook) THEN TRUE ELSE Mismatch(l, <<"init", e.outcome>>)
-  ELSE IF e.a = "Assign"
-  THEN IF ~AssignInContract(e)
-       THEN Follow(e) /\ sizes' = <<>> /\ UNCHANGED snap /\ Mismatch(l, <<"gen", "Assign">>)
-       ELSE LET want == AssignB(book, e) IN
-            /\ sizes' = <<>> /\ UNCHANGED snap
+  THEN /\ wbs' = [w \in 1..e.n |-> NewWb] /\ snap' = [w \in 1..e.n |-> <<>>]
+       /\ IF e.outcome = "ok" /\ e.n >= 1 /\ ObsBook(e.obs) = ProjBook(EmptyBook) THEN TRUE ELSE Mismatch(l, <<"init", e.outcome>>)
+  ELSE IF e.w \notin DOMAIN wbs
+  THEN UNCHANGED <<wbs, snap>> /\ Mismatch(l, <<"gen", e.a, "no such workbook">>)
+  ELSE LET w == e.w
+           W == wbs[w]
+  IN
+  IF e.a \in {"Assign", "Import"}
+  THEN IF (e.a = "Assign" /\ ~AssignInContract(e)) \/ (e.a = "Import" /\ ~ImportInContract(e))
+       THEN Follow(w, e, <<>>) /\ UNCHANGED snap /\ Mismatch(l, <<"gen", e.a>>)
+       ELSE LET want == IF e.a = "Assign" THEN AssignB(W.book, e) ELSE FoldImport(W.book, wbs[e.v].book, e.items) IN
+            /\ UNCHANGED snap
             /\ IF e.outcome = "ok" /\ NoDup(e.obs) /\ ObsBook(e.obs) = ProjBook(want)
-               THEN book' = want /\ UNCHANGED ss
-               ELSE Follow(e) /\ Mismatch(l, <<"assign", e.outcome, IF e.outcome = "ok" /\ NoDup(e.obs)
-                                                                    THEN Diff(ProjBook(want), ObsBook(e.obs)) ELSE <<"dup">> >>)
+               THEN Put(w, want, W.ss, <<>>)
+               ELSE Follow(w, e, <<>>)
+                    /\ Mismatch(l, <<(IF e.a = "Assign" THEN "assign" ELSE "import"), e.outcome,
+                                     IF e.outcome = "ok" /\ NoDup(e.obs) THEN Diff(ProjBook(want), ObsBook(e.obs)) ELSE <<"dup">> >>)
   ELSE IF e.a = "Save"
-  THEN /\ snap' = <<[book |-> book, ss |-> ss]>>
-       /\ sizes' = Append(sizes, e.sizes)
-       /\ IF e.outcome = "ok" /\ NoDup(e.obs) /\ ObsBook(e.obs) = ProjBook(book)       \* a save does not change the workbook
-          THEN /\ UNCHANGED <<book, ss>>
+  THEN /\ snap' = [snap EXCEPT ![w] = <<[book |-> W.book, ss |-> W.ss]>>]
+       /\ IF e.outcome = "ok" /\ NoDup(e.obs) /\ ObsBook(e.obs) = ProjBook(W.book)       \* a save does not change the workbook
+          THEN /\ Put(w, W.book, W.ss, Append(W.sizes, e.sizes))
                /\ IF ~e.wellformed THEN Mismatch(l, <<"impl", "Save", "styles.xml cannot be parsed">>)
-                  ELSE IF sizes # <<>> /\ ~SizesLeq(e.sizes, sizes[Len(sizes)])        \* NoGrowth
-                  THEN Mismatch(l, <<"impl", "Save", "style tables grew", sizes[Len(sizes)], e.sizes>>)
+                  ELSE IF W.sizes # <<>> /\ ~SizesLeq(e.sizes, W.sizes[Len(W.sizes)])        \* NoGrowth
+                  THEN Mismatch(l, <<"impl", "Save", "style tables grew", W.sizes[Len(W.sizes)], e.sizes>>)
                   ELSE TRUE
-          ELSE Follow(e) /\ Mismatch(l, <<"impl", "Save", e.outcome, "workbook changed by the save">>)
+          ELSE Follow(w, e, Append(W.sizes, e.sizes)) /\ Mismatch(l, <<"impl", "Save", e.outcome, "workbook changed by the save">>)
   ELSE IF e.a = "Reload"
-  THEN IF snap = <<>> \/ ~NamesOK(e.names, snap[1])
-       THEN Follow(e) /\ UNCHANGED <<sizes, snap>> /\ Mismatch(l, <<"gen", "Reload">>)
-       ELSE LET S    == snap[1]
+  THEN IF snap[w] = <<>> \/ ~NamesOK(e.names, snap[w][1])
+       THEN Follow(w, e, W.sizes) /\ UNCHANGED snap /\ Mismatch(l, <<"gen", "Reload">>)
+       ELSE LET S    == snap[w][1]
                 obs  == ObsBook(e.obs)
                 good == e.outcome = "ok" /\ NoDup(e.obs)
                 want == ReloadWith(S, {}, e.names)
-            IN /\ UNCHANGED <<sizes, snap>>
+            IN /\ UNCHANGED snap
                /\ IF good /\ ProjBook(want.book) = obs
-                  THEN book' = want.book /\ ss' = want.ss
+                  THEN Put(w, want.book, want.ss, W.sizes)
                   ELSE LET T  == Triggered(S, e.names)
                            wT == ReloadWith(S, T, e.names)          \* every deviation whose trigger holds: the usual case
                        IN IF T # {} /\ good /\ ProjBook(wT.book) = obs
-                          THEN /\ book' = wT.book /\ ss' = wT.ss
+                          THEN /\ Put(w, wT.book, wT.ss, W.sizes)
                                /\ \A id \in T : KFHit(id, l)
                           ELSE LET Ds == {D \in SUBSET T : D # {} /\ D # T /\ good
                                                             /\ ProjBook(ReloadWith(S, D, e.names).book) = obs}
                                IN IF Ds # {}
                                   THEN LET D == CHOOSE X \in Ds : \A Y \in Ds : Cardinality(X) <= Cardinality(Y)
-                                           w == ReloadWith(S, D, e.names)
-                                       IN /\ book' = w.book /\ ss' = w.ss
+                                           x == ReloadWith(S, D, e.names)
+                                       IN /\ Put(w, x.book, x.ss, W.sizes)
                                           /\ \A id \in D : KFHit(id, l)
-                                  ELSE /\ Follow(e)
+                                  ELSE /\ Follow(w, e, W.sizes)
                                        /\ Mismatch(l, <<"impl", "Reload", e.outcome,
                                                         IF good THEN Diff(ProjBook(want.book), obs) ELSE <<"dup/outcome">> >>)
-  ELSE UNCHANGED <<book, ss, sizes, snap>> /\ Mismatch(l, <<"gen", e.a>>)
+  ELSE UNCHANGED <<wbs, snap>> /\ Mismatch(l, <<"gen", e.a>>)
 
-TraceInit == l = 1 /\ book = EmptyBook /\ given = EmptyBook /\ ss = NewSS /\ file = <<>> /\ sizes = <<>> /\ snap = <<>>
-TraceNext == l <= Len(Rec) /\ l' = l + 1 /\ Step(Ev) /\ UNCHANGED <<given, file>>
+TraceInit == l = 1 /\ wbs = <<>> /\ snap = <<>>
+TraceNext == l <= Len(Rec) /\ l' = l + 1 /\ Step(Ev)
 TraceSpec == TraceInit /\ [][TraceNext]_tvars
 =============================================================================
